@@ -442,4 +442,41 @@ mod tests {
 #[allow(unused_imports, missing_docs, dead_code, unreachable_pub)]
 pub mod verif {
     use super::*;
+
+    // C29: the private server handler driven through a recording `ResponseSender`
+    pub const MAX_HEADERS_AMOUNT_RESPONSE_V: u64 = MAX_HEADERS_AMOUNT_RESPONSE;
+
+    #[derive(Default)]
+    pub struct RecordingSender(pub Vec<(u64, ResponseType)>);
+
+    impl ResponseSender for RecordingSender {
+        type Channel = u64;
+
+        fn send_response(&mut self, channel: u64, response: ResponseType) {
+            self.0.push((channel, response));
+        }
+    }
+
+    /// Feeds `requests` (channel = index) to a fresh real handler over `store`, optionally after
+    /// `on_stop`, polls it until no task is left and returns every `(channel, response)` sent.
+    pub async fn serve<S: Store + 'static>(
+        store: Arc<S>,
+        requests: Vec<HeaderRequest>,
+        stop_first: bool,
+    ) -> Vec<(u64, ResponseType)> {
+        let mut handler = HeaderExServerHandler::<S, RecordingSender>::new(store);
+        let mut sender = RecordingSender::default();
+        if stop_first {
+            handler.on_stop();
+        }
+        for (i, request) in requests.into_iter().enumerate() {
+            handler.on_request_received(PeerId::random(), i, request, &mut sender, i as u64);
+        }
+        std::future::poll_fn(|cx| {
+            while handler.poll(cx, &mut sender).is_ready() {}
+            if handler.tasks.is_empty() { Poll::Ready(()) } else { Poll::Pending }
+        })
+        .await;
+        sender.0
+    }
 }
